@@ -59,6 +59,21 @@ struct Ord
 template <typename T> struct Conv { static T from (int x) { return T (x); } };
 template <> struct Conv<double> { static double from (int x) { return x == 3 ? std::numeric_limits<double>::quiet_NaN () : static_cast<double> (x); } };
 
+// Built-in element types whose object representation orders differently from their values
+// (negative numbers, -0.0 / NaN, enums, pointers): a byte-wise "fast path" in a comparison
+// would get these wrong.  Codes 0..3 are mapped to values that straddle the sign bit.
+enum class SEnum : signed char { a = 1, b = -2, c = 0, d = 100 };
+static const int g_ptr_pool[4] = { 10, 11, 12, 13 };
+template <> struct Conv<signed char>   { static signed char   from (int x) { static const signed char   t[4] = { 1, -2, 0, 127 };  return t[x & 3]; } };
+template <> struct Conv<char>          { static char          from (int x) { static const char          t[4] = { 1, static_cast<char> (-2), 0, 127 }; return t[x & 3]; } };
+template <> struct Conv<unsigned char> { static unsigned char from (int x) { static const unsigned char t[4] = { 1, 200, 0, 255 }; return t[x & 3]; } };
+template <> struct Conv<short>         { static short         from (int x) { static const short         t[4] = { 1, -2, 0, 32767 }; return t[x & 3]; } };
+template <> struct Conv<long long>     { static long long     from (int x) { static const long long     t[4] = { 1, -2, 0, std::numeric_limits<long long>::max () }; return t[x & 3]; } };
+template <> struct Conv<unsigned>      { static unsigned      from (int x) { static const unsigned      t[4] = { 1u, 0x80000000u, 0u, ~0u }; return t[x & 3]; } };
+template <> struct Conv<float>         { static float         from (int x) { static const float         t[4] = { 0.0f, -0.0f, 1.0f, std::numeric_limits<float>::quiet_NaN () }; return t[x & 3]; } };
+template <> struct Conv<SEnum>         { static SEnum         from (int x) { static const SEnum         t[4] = { SEnum::a, SEnum::b, SEnum::c, SEnum::d }; return t[x & 3]; } };
+template <> struct Conv<const int *>   { static const int *   from (int x) { return &g_ptr_pool[(5 - x) & 3]; } };
+
 struct Fail { bool set; std::string msg; std::string replay; };
 static Fail g_fail = { false, "", "" };
 static unsigned long long g_evals = 0, g_nontrivial = 0;
@@ -161,6 +176,20 @@ compare_all_caps (const char *type, const std::vector<int>& a, const std::vector
   compare_pair<T, 3, 0> (type, a, b, total, table);
   compare_pair<T, 2, 2> (type, a, b, total, table);
   compare_pair<T, 2, 5> (type, a, b, total, table);
+}
+
+static void
+compare_scalars (const std::vector<int>& a, const std::vector<int>& b, Dg& table)
+{
+  compare_all_caps<signed char>   ("schar", a, b, true, table);
+  compare_all_caps<char>          ("char", a, b, true, table);
+  compare_all_caps<unsigned char> ("uchar", a, b, true, table);
+  compare_all_caps<short>         ("short", a, b, true, table);
+  compare_all_caps<long long>     ("llong", a, b, true, table);
+  compare_all_caps<unsigned>      ("unsigned", a, b, true, table);
+  compare_all_caps<float>         ("float", a, b, false, table);
+  compare_all_caps<SEnum>         ("enum:schar", a, b, true, table);
+  compare_all_caps<const int *>   ("pointer", a, b, true, table);
 }
 
 static void
@@ -323,6 +352,15 @@ main (int argc, char **argv)
       for (std::size_t j = 0; j < ds.size () && ! g_fail.set; ++j)
         compare_all_caps<double> ("double", ds[i], ds[j], false, t_dbl);
   }
+  // built-in scalar element types (signed bytes, -0.0f/NaN, enum, pointers): alphabet of 4 codes up to length 3
+  {
+    std::vector<std::vector<int> > ss;
+    Dg t_scal;
+    all_contents (4, 3, ss);
+    for (std::size_t i = 0; i < ss.size () && ! g_fail.set; ++i)
+      for (std::size_t j = 0; j < ss.size () && ! g_fail.set; ++j)
+        compare_scalars (ss[i], ss[j], t_scal);
+  }
   const unsigned long long exhaustive_evals = g_evals;
   const unsigned long long exhaustive_nontrivial = g_nontrivial;
   // non-member functions on every content
@@ -355,6 +393,7 @@ main (int argc, char **argv)
       compare_all_caps<EqLt> ("eqlt", a, b, true, scratch);
       compare_all_caps<Ord> ("ord", a, b, true, scratch);
       compare_all_caps<double> ("double", a, b, false, scratch);
+      compare_scalars (a, b, scratch);
       check_nonmembers<int, 3> ("int", a, v, 2 + v % 3);
       check_nonmembers<Ord, 0> ("ord", a, v, 2 + v % 3);
       check_nonmembers<double, 2> ("double", a, v, 2 + v % 3);
